@@ -9,6 +9,8 @@ from harness.core import Case, REPO
 from harness import clientlib as cl, respspec
 from harness.callreg import invocations
 
+WIDE = 200000        # thorough tier: histories of the wide correspondence stream (widegen.py), judged by the model and the generic rule
+WIDE_QUICK = 2000
 PROP = 'C11'
 EXHAUSTIVE = False
 RULE = ('padding-aware entry points (read from the client docstrings) x reference-encoder responses with 0..3 records x pad '
